@@ -808,6 +808,19 @@ impl CodegenContext {
                                 None => opts.target_address = opts.initial_pc,
                             }
 
+                            if let Some(existing) = self.segments.get(&name) {
+                                if !existing.range().is_empty() {
+                                    // (Re)defining the segment starts it afresh: whatever this pass assembled into it so far
+                                    // would silently disappear from the program
+                                    return Err(Diagnostic::error()
+                                        .with_message(format!(
+                                            "segment '{}' is defined after code was assembled into it",
+                                            name
+                                        ))
+                                        .with_labels(vec![id.span.to_label()])
+                                        .into());
+                                }
+                            }
                             self.segments.insert(name.clone(), Segment::new(opts));
                             if self.current_segment.is_none() {
                                 self.current_segment = Some(name);
